@@ -14,11 +14,9 @@
      sorted_toks ltb r                      the ring is in token order (newTokenRing sorts: C10_new_token_ring)
      Forall (0 <= snd) dcs, NoDup keys      what getStrategy produces (C10_get_strategy_wf)
      forall h, In h hosts <-> In h (map snd r)   every host owns a token and every token's host is listed
-     NoDup (map snd r)                      ONE TOKEN PER HOST: excludes known finding nts-duplicate-replica
-                                            (Refuted.v: nts_duplicate_refuted); needed only where stated
-     nts_replica_map .. = Ok m              no panic: excludes known finding nts-unknown-dc-panic
-                                            (Refuted.v: nts_unknown_dc_crash_refuted); C10_nts_panic_iff says
-                                            exactly when that is *)
+   No theorem assumes one token per host or the absence of a panic any more: the two defects that made those
+   hypotheses necessary (known findings nts-duplicate-replica and nts-unknown-dc-panic) are repaired in
+   topology.go; C10/Refuted.v keeps the old behaviour as regression facts about the pre-fix model. *)
 From GocqlV Require Import Lib.Base C10.Model C10.Spec C10.Proofs1 C10.Proofs2 C10.Proofs3 C10.Proofs4 C10.Proofs5 C10.Proofs6.
 From Coq Require Import Sorting.Permutation Sorting.Sorted.
 Open Scope Z_scope.
@@ -93,77 +91,45 @@ Theorem C10_simple_entries : forall (T : Type) (rf : Z) (r : list (T * Z)) (i : 
 Proof. intros T rf r i tok reps. exact (simple_entry_props rf r i tok reps). Qed.
 Print Assumptions C10_simple_entries.
 
-(* ---- NetworkTopologyStrategy: panics ------------------------------------------------------------ *)
+(* ---- NetworkTopologyStrategy --------------------------------------------------------------------- *)
 
-(* For every ring (any number of tokens per host): replicaMap never raises "replica overflow", "no replicas for
-   token" or "first replica is not the primary replica"; it raises "token map different size to token ring"
-   exactly when as many keyspace DCs have a positive factor as the hosts have DCs and yet some ring token lies
-   in a DC without a factor. *)
-Theorem C10_nts_panic_iff : forall (T : Type) (info : Z -> hinfo) (dcs : amap Z) (hosts : list Z)
-                                   (r : list (T * Z)) (c : crash),
+(* For every ring (any number of tokens per host), every keyspace (datacenters inside or outside the ring, any
+   factors): replicaMap raises none of its four panics. *)
+Theorem C10_nts_never_panics : forall (T : Type) (info : Z -> hinfo) (dcs : amap Z) (hosts : list Z) (r : list (T * Z)),
   Forall (fun e => 0 <= snd e) dcs -> NoDup (map fst dcs) ->
   (forall e, In e r -> In (snd e) hosts) ->
-  (nts_replica_map info dcs hosts r = Crash c <->
-   c = PanicSize /\ dcs_with_replicas dcs = length (mk_dc_racks info hosts)
-   /\ exists e, In e r /\ getz dcs (dc_of info (snd e)) = 0).
-Proof. intros T info dcs hosts r c H1 H2 H3. exact (nts_crash_iff info dcs hosts H1 H2 r c H3). Qed.
-Print Assumptions C10_nts_panic_iff.
-
-(* That situation requires a keyspace DC with a positive factor in which the ring has no host ... *)
-Theorem C10_nts_panic_needs_unknown_dc : forall (T : Type) (info : Z -> hinfo) (dcs : amap Z) (hosts : list Z)
-                                                (r : list (T * Z)) (c : crash),
-  Forall (fun e => 0 <= snd e) dcs -> NoDup (map fst dcs) ->
-  (forall e, In e r -> In (snd e) hosts) ->
-  nts_replica_map info dcs hosts r = Crash c ->
-  exists dc, 0 < getz dcs dc /\ forall h, In h hosts -> dc_of info h <> dc.
-Proof.
-  intros T info dcs hosts r c H1 H2 H3 Hc.
-  apply (nts_crash_iff info dcs hosts H1 H2 r c H3) in Hc. destruct Hc as [_ [Hlen Hex]].
-  exact (crash_needs_unknown_dc info dcs hosts H2 r H3 Hlen Hex).
-Qed.
-Print Assumptions C10_nts_panic_needs_unknown_dc.
-
-(* ... so a keyspace whose replicated DCs all occur in the ring never panics. *)
-Theorem C10_nts_no_panic : forall (T : Type) (info : Z -> hinfo) (dcs : amap Z) (hosts : list Z) (r : list (T * Z)),
-  Forall (fun e => 0 <= snd e) dcs -> NoDup (map fst dcs) ->
-  (forall e, In e r -> In (snd e) hosts) ->
-  (forall dc, 0 < getz dcs dc -> exists h, In h hosts /\ dc_of info h = dc) ->
   exists m, nts_replica_map info dcs hosts r = Ok m.
 Proof.
-  intros T info dcs hosts r H1 H2 H3 Hknown.
-  destruct (nts_replica_map info dcs hosts r) as [m|c] eqn:E; [exists m; reflexivity|].
-  exfalso. destruct (C10_nts_panic_needs_unknown_dc T info dcs hosts r c H1 H2 H3 E) as [dc [Hpos Hno]].
-  destruct (Hknown dc Hpos) as [h [Hh Hdc]]. exact (Hno h Hh Hdc).
+  intros T info dcs hosts r H1 H2 H3. exists (nts_entries info dcs hosts r).
+  exact (nts_replica_map_eq info dcs hosts H1 H2 r H3).
 Qed.
-Print Assumptions C10_nts_no_panic.
+Print Assumptions C10_nts_never_panics.
 
-(* ---- NetworkTopologyStrategy: placement --------------------------------------------------------- *)
-
-(* With one token per host and no panic: for EVERY lookup token t (equal to, between, below, above the ring
-   tokens; also tokens owned by a DC without replicas, whose own entry is missing from the map) the replicas the
-   driver finds are the nodes Cassandra's NetworkTopologyStrategy places t on, in the same order (an empty map
-   corresponds to Cassandra placing the token nowhere). *)
+(* For every ring (any number of tokens per host) and EVERY lookup token t (equal to, between, below, above the
+   ring tokens; also tokens owned by a DC without replicas, whose own entry is missing from the map): the replicas
+   the driver finds are the nodes Cassandra's NetworkTopologyStrategy places t on, in the same order (an empty
+   map corresponds to Cassandra placing the token nowhere). *)
 Theorem C10_nts_eq_cassandra : forall (T : Type) (ltb : T -> T -> bool) (info : Z -> hinfo) (dcs : amap Z)
                                       (hosts : list Z) (r : list (T * Z)) (m : list (T * list Z)) (t : T),
   strict_total ltb -> Forall (fun e => 0 <= snd e) dcs -> NoDup (map fst dcs) ->
-  sorted_toks ltb r -> NoDup (map snd r) -> (forall h, In h hosts <-> In h (map snd r)) ->
+  sorted_toks ltb r -> (forall h, In h hosts <-> In h (map snd r)) ->
   nts_replica_map info dcs hosts r = Ok m ->
   reps_or_nil (replicas_for ltb m t) = nts_natural_endpoints ltb (dc_of info) (rack_of info) dcs r t.
-Proof. intros T ltb info dcs hosts r m t O H1 H2 Hs Hnd Hh Hm. exact (nts_lookup_eq_spec ltb O info dcs hosts H1 H2 r m t Hs Hnd Hh Hm). Qed.
+Proof. intros T ltb info dcs hosts r m t O H1 H2 Hs Hh Hm. exact (nts_lookup_eq_spec ltb O info dcs hosts H1 H2 r m t Hs Hh Hm). Qed.
 Print Assumptions C10_nts_eq_cassandra.
 
-(* With one token per host every entry of the map has no node twice, only ring nodes, per DC at most
-   min(factor, nodes of the DC), hence at most the distinct nodes of the ring. *)
+(* For every ring (any number of tokens per host): every entry of the map has no node twice, only ring nodes,
+   per DC at most min(factor, nodes of the DC), hence at most the distinct nodes of the ring. *)
 Theorem C10_nts_entries : forall (T : Type) (info : Z -> hinfo) (dcs : amap Z) (hosts : list Z)
                                  (r : list (T * Z)) (m : list (T * list Z)) (e : T * list Z),
   Forall (fun e => 0 <= snd e) dcs -> NoDup (map fst dcs) ->
-  NoDup (map snd r) -> (forall h, In h hosts <-> In h (map snd r)) ->
+  (forall x, In x r -> In (snd x) hosts) ->
   nts_replica_map info dcs hosts r = Ok m -> In e m ->
   NoDup (snd e) /\ incl (snd e) (map snd r)
   /\ (forall dc, Z.of_nat (count_dc info dc (snd e))
                  <= Z.min (getz dcs dc) (Z.of_nat (length (dc_endpoints (dc_of info) (map snd r) dc))))
   /\ (length (snd e) <= length (nodup Z.eq_dec (map snd r)))%nat.
-Proof. intros T info dcs hosts r m e H1 H2 Hnd Hh Hm He. exact (nts_entries_props info dcs hosts H1 H2 r m e Hnd Hh Hm He). Qed.
+Proof. intros T info dcs hosts r m e H1 H2 Hr Hm He. exact (nts_entries_props info dcs hosts H1 H2 r m e Hr Hm He). Qed.
 Print Assumptions C10_nts_entries.
 
 (* For every ring (any number of tokens per host): whenever the owner of the looked-up token lies in a DC that
@@ -218,6 +184,16 @@ Module NonVacuous.
   Example unknown_dc_without_panic :
     exists m, nts_replica_map info7 [(dcA, 1); (dcB, 1); ([100; 99; 57], 2)] hosts7 ring7 = Ok m.
   Proof. eexists. vm_compute. reflexivity. Qed.
+
+  (* the keyspace of Spec.SpecExamples.nts_rf_big ({dc1: 7, dc9: 2} on a ring of dc1 + dc2) used to panic; and
+     several tokens per host: three hosts x two tokens, two racks, dc1: 2 *)
+  Example vnodes_and_unknown_dc :
+    nts_replica_map info7 [(dcA, 7); ([100; 99; 57], 2)] hosts7 ring7
+    = Ok [(-50, [0; 4; 2; 6]); (0, [2; 4; 6; 0]); (30, [4; 6; 0; 2]); (90, [6; 4; 0; 2])]
+    /\ nts_replica_map (fun h => mkInfo dcA (rk (h mod 2)) h) [(dcA, 2)] [0; 1; 2]
+                        [(0, 0); (10, 0); (20, 1); (30, 2); (40, 1); (50, 2)]
+       = Ok [(0, [0; 1]); (10, [0; 1]); (20, [1; 2]); (30, [2; 1]); (40, [1; 2]); (50, [2; 1])].
+  Proof. split; vm_compute; reflexivity. Qed.
 
   (* SimpleStrategy with two tokens per host *)
   Example simple_vnodes :
